@@ -12,6 +12,7 @@ import (
 	"os"
 	"os/exec"
 	"path/filepath"
+	"regexp"
 	"runtime/debug"
 	"runtime/metrics"
 	"sort"
@@ -638,7 +639,11 @@ type c09Entry struct {
 	// okErr: an error this entry point returns on a valid archive by design
 	okErr  func(err error, seed *c09Seed) bool
 	resume bool // opens an existing file for writing (resume path)
-	run    func(in []byte, o drv.Opts, env *c09Env) error
+	// sectNoBuf: the entry point passes over sections WITHOUT buffering them ("all": every section - SkipNext,
+	// Inspect; "some": the odd ones - alternate). The statement demands the too-large error only of an entry
+	// point that buffers; a missing report there is recorded as a beyond-statement outcome, not a violation.
+	sectNoBuf string
+	run       func(in []byte, o drv.Opts, env *c09Env) error
 }
 
 var c09Queries = []string{"a", "b", "i", "s"}
@@ -752,6 +757,17 @@ func c09ReaderAll(rd *carv2.Reader, n int, env *c09Env) error {
 	return first
 }
 
+// c09NoBufOfMode: SkipNext does not buffer sections; mode 2 reads the even ones (section 0) with Next.
+func c09NoBufOfMode(mode int) string {
+	switch mode {
+	case 1:
+		return "all"
+	case 2:
+		return "some"
+	}
+	return ""
+}
+
 func c09IsAlreadyV1(err error, sd *c09Seed) bool {
 	return sd.base == 0 && errors.Is(err, carv2.ErrAlreadyV1)
 }
@@ -759,7 +775,7 @@ func c09IsAlreadyV1(err error, sd *c09Seed) bool {
 func c09Entries() []c09Entry {
 	ctx := context.Background()
 	mkBR := func(name string, stream bool, mode int) c09Entry {
-		return c09Entry{name: name, buf: "both", inner: true, hdr: "ret", sect: "ret", run: func(in []byte, o drv.Opts, env *c09Env) error {
+		return c09Entry{name: name, buf: "both", inner: true, hdr: "ret", sect: "ret", sectNoBuf: c09NoBufOfMode(mode), run: func(in []byte, o drv.Opts, env *c09Env) error {
 			var src io.Reader = &stepReader{bytes.NewReader(in), env}
 			if stream {
 				src = &stepStream{bytes.NewReader(in), env}
@@ -779,7 +795,7 @@ func c09Entries() []c09Entry {
 			}
 			return c09ReaderAll(rd, len(in), env)
 		}},
-		{name: "Inspect(true)", buf: "both", inner: true, hdr: "ret", sect: "ret", run: func(in []byte, o drv.Opts, env *c09Env) error {
+		{name: "Inspect(true)", buf: "both", inner: true, hdr: "ret", sect: "ret", sectNoBuf: "all", run: func(in []byte, o drv.Opts, env *c09Env) error {
 			rd, err := carv2.NewReader(&stepReader{bytes.NewReader(in), env}, o.List()...)
 			if err != nil {
 				return err
@@ -787,7 +803,7 @@ func c09Entries() []c09Entry {
 			_, err = rd.Inspect(true)
 			return err
 		}},
-		{name: "Inspect(false)", buf: "both", inner: true, hdr: "ret", sect: "ret", run: func(in []byte, o drv.Opts, env *c09Env) error {
+		{name: "Inspect(false)", buf: "both", inner: true, hdr: "ret", sect: "ret", sectNoBuf: "all", run: func(in []byte, o drv.Opts, env *c09Env) error {
 			rd, err := carv2.NewReader(&stepReader{bytes.NewReader(in), env}, o.List()...)
 			if err != nil {
 				return err
@@ -952,6 +968,8 @@ type c09Result struct {
 	MaxSteps   int64     `json:"max_steps"`
 	Expect     int       `json:"expect"` // evaluations of the too-large / within-limit expectation
 	Violations []c09Viol `json:"violations"`
+	// Beyond: observations the statement does not carry (recorded as beyond-statement outcomes)
+	Beyond map[string]int `json:"beyond,omitempty"`
 }
 
 func allocBytes(s []metrics.Sample) uint64 {
@@ -986,13 +1004,57 @@ func c09Opts(cs C09Case, seedLen int) drv.Opts {
 	return o
 }
 
-const (
-	c09HdrTooLarge  = "invalid header data, length of read beyond allowable maximum"
-	c09SectTooLarge = "invalid section data, length of read beyond allowable maximum"
-	c09RootTooLarge = "malformed car; header is bigger than util.MaxAllowedSectionSize"
-)
+// c09TooLarge holds the too-large errors of the go-car under test. No error TEXT is written down here: the
+// errors are obtained by probing this build with a 100-byte length prefix under a limit of 1 (through the
+// existing bridge; the sentinels util.ErrHeaderTooLarge / util.ErrSectionTooLarge are internal to go-car).
+type c09TooLarge struct{ hdr, sect, root error }
 
-func errHas(err error, sub string) bool { return err != nil && strings.Contains(err.Error(), sub) }
+func c09Innermost(err error) error {
+	for err != nil {
+		u := errors.Unwrap(err)
+		if u == nil {
+			break
+		}
+		err = u
+	}
+	return err
+}
+
+var c09Sentinels = sync.OnceValue(func() c09TooLarge {
+	var t c09TooLarge
+	_, err := verifbridge.ReadHeaderV1(bytes.NewReader([]byte{100, 0xa0}), 1)
+	t.hdr = c09Innermost(err)
+	if cr, err := verifbridge.NewCarV1ReaderWithoutDefaults(bytes.NewReader(append(append([]byte{}, c09TinyV1()...), 100, 0x01)), false, 1<<20, 1); err == nil {
+		_, err = cr.Next()
+		t.sect = c09Innermost(err)
+	}
+	// the root module has no sentinel (and one process-global limit)
+	old := v1util.MaxAllowedSectionSize
+	v1util.MaxAllowedSectionSize = 1
+	_, t.root = v1util.LdRead(bufio.NewReader(bytes.NewReader([]byte{100, 0x01})))
+	v1util.MaxAllowedSectionSize = old
+	return t
+})
+
+// c09Is: err is (or wraps, or quotes) the reference error of this build.
+func c09Is(err, ref error) bool {
+	if err == nil || ref == nil {
+		return false
+	}
+	return errors.Is(err, ref) || strings.Contains(err.Error(), ref.Error())
+}
+
+var c09Digits = regexp.MustCompile(`[0-9]+`)
+
+// c09IsRoot: err is the root module's too-large error (a fresh value per call, possibly carrying the
+// sizes: compared with the numbers masked).
+func c09IsRoot(err error) bool {
+	ref := c09Sentinels().root
+	if err == nil || ref == nil {
+		return false
+	}
+	return c09Is(err, ref) || strings.Contains(c09Digits.ReplaceAllString(err.Error(), "#"), c09Digits.ReplaceAllString(ref.Error(), "#"))
+}
 
 // c09Prop is the part of the allocation bound that is proportional to the input.
 func c09Prop(n int) uint64 {
@@ -1063,7 +1125,8 @@ func C09ChildMain(arg, progressPath string) int {
 	}
 	defer os.RemoveAll(dir)
 	prog, _ := os.OpenFile(progressPath, os.O_CREATE|os.O_WRONLY|os.O_TRUNC, 0o644)
-	res := &c09Result{}
+	res := &c09Result{Beyond: map[string]int{}}
+	tl := c09Sentinels() // before the root module's global is touched
 	entries := c09EntriesFor(cs.Set)
 	o := c09Opts(cs, len(seed.bytes))
 	mh, ms := c09Limits(cs.Limit)
@@ -1275,9 +1338,12 @@ func C09ChildMain(arg, progressPath string) int {
 			}
 			// a planted over-limit length is rejected with the too-large error; one at the limit is not
 			if (wantHdr || wantSect || hdrWithin) && (!isV2 || e.inner) && m.FV < 1<<63 && (!wantSect || uint64(seed.hdrLen-seed.hdrVar) <= emh) {
-				hs, ss := c09HdrTooLarge, c09SectTooLarge
+				okHdr := func(g error) bool { return c09Is(g, tl.hdr) }
+				okSect := func(g error) bool { return c09Is(g, tl.sect) }
+				hs, ss := fmt.Sprint(tl.hdr), fmt.Sprint(tl.sect)
 				if e.buf == "root" {
-					hs, ss = c09RootTooLarge, c09RootTooLarge
+					okHdr, okSect = c09IsRoot, c09IsRoot
+					hs, ss = fmt.Sprint(tl.root), fmt.Sprint(tl.root)
 				}
 				var got []error
 				switch {
@@ -1287,7 +1353,11 @@ func C09ChildMain(arg, progressPath string) int {
 					if oe, ok := env.errs["open"]; ok && oe != nil {
 						got = []error{oe}
 					} else if ok {
-						got = []error{env.errs["Keys"], env.errs["Roots"]}
+						// Roots returns the header's content, so it buffers it; a listing need not
+						got = []error{env.errs["Roots"]}
+						if ke, tried := env.errs["Keys"]; tried && wantHdr && m.FV > emh && !okHdr(ke) {
+							res.Beyond["listing-without-header-limit:"+e.name]++
+						}
 					}
 				case wantSect && e.sect == "ret":
 					got = []error{rerr}
@@ -1303,11 +1373,24 @@ func C09ChildMain(arg, progressPath string) int {
 				for _, g := range got {
 					res.Expect++
 					switch {
-					case wantHdr && m.FV > emh && !errHas(g, hs):
+					case wantHdr && m.FV > emh && !okHdr(g):
+						if okSect(g) {
+							// the statement says "the too-large error", not which of go-car's two
+							res.Beyond["too-large-kind:header-reported-as-section:"+e.name]++
+							break
+						}
 						add("c09:too-large-not-reported:header:"+e.name, fmt.Sprintf("%s: header length prefix %d with MaxAllowedHeaderSize %d returned %v, want %q", e.name, m.FV, lim, g, hs))
-					case wantSect && m.FV > ems && !errHas(g, ss):
+					case wantSect && m.FV > ems && !okSect(g):
+						if okHdr(g) {
+							res.Beyond["too-large-kind:section-reported-as-header:"+e.name]++
+							break
+						}
+						if e.sectNoBuf == "all" {
+							res.Beyond["section-limit-without-buffering:"+e.name]++
+							break
+						}
 						add("c09:too-large-not-reported:section:"+e.name, fmt.Sprintf("%s: section length prefix %d with MaxAllowedSectionSize %d returned %v, want %q", e.name, m.FV, lim, g, ss))
-					case hdrWithin && m.FV <= emh && errHas(g, hs) && hs != ss:
+					case hdrWithin && m.FV <= emh && e.buf != "root" && hs != ss && okHdr(g):
 						add("c09:within-limit-rejected:header:"+e.name, fmt.Sprintf("%s: header length prefix %d with MaxAllowedHeaderSize %d is rejected as too large: %v", e.name, m.FV, lim, g))
 					}
 				}
@@ -1370,7 +1453,7 @@ func c09RootExact(seed *c09Seed, e c09Entry, o drv.Opts, env *c09Env, add func(s
 		add("c09:limit-exact-rejected:"+e.name, fmt.Sprintf("%s with util.MaxAllowedSectionSize %d (the largest header/section of seed %s) fails: %v", e.name, big, seed.name, err))
 	}
 	v1util.MaxAllowedSectionSize = uint(big - 1)
-	if err := e.run(seed.bytes, o, &c09Env{dir: env.dir}); !errHas(err, c09RootTooLarge) {
+	if err := e.run(seed.bytes, o, &c09Env{dir: env.dir}); !c09IsRoot(err) {
 		add("c09:limit-not-enforced:"+e.name, fmt.Sprintf("%s with util.MaxAllowedSectionSize %d on seed %s (largest header/section %d) returned %v, want the too-large error", e.name, big-1, seed.name, big, err))
 	}
 }
@@ -1435,8 +1518,11 @@ func runC09(c any, x *kit.Ctx) {
 		return
 	}
 	t0 := time.Now()
-	total := &c09Result{}
+	total := &c09Result{Beyond: map[string]int{}}
 	merge := func(r *c09Result) {
+		for k, n := range r.Beyond {
+			total.Beyond[k] += n
+		}
 		total.Runs += r.Runs
 		total.Mutants += r.Mutants
 		total.Accepted += r.Accepted
@@ -1464,7 +1550,7 @@ func runC09(c any, x *kit.Ctx) {
 			sig := "c09:" + kind + ":" + entry
 			if kind != "fatal" {
 				// resource exhaustion in all its forms is one class per region and entry point
-				sig = "c09:alloc:" + c09FindSeed(cs.Seed).region(mut.Pos) + ":" + entry
+				sig = "c09:alloc:" + c09DeathRegion(cs.Seed, mut, entry) + ":" + entry
 			}
 			x.FailCase(rc, sig, "the process died (%s) while %s parsed mutant %+v of seed %s: %s", kind, entry, mut, cs.Seed, clipS(se, 1200))
 			return
@@ -1484,7 +1570,7 @@ func runC09(c any, x *kit.Ctx) {
 			if died2 {
 				sig := "c09:" + kind2 + ":" + e.name
 				if kind2 != "fatal" {
-					sig = "c09:alloc:" + c09FindSeed(cs.Seed).region(m.Pos) + ":" + e.name
+					sig = "c09:alloc:" + c09DeathRegion(cs.Seed, m, e.name) + ":" + e.name
 				}
 				total.Violations = append(total.Violations, c09Viol{Sig: sig, Msg: fmt.Sprintf("the process died (%s): %s", kind2, clipS(se2, 1200)), Mut: m, Entry: e.name})
 				continue
@@ -1508,6 +1594,9 @@ func runC09(c any, x *kit.Ctx) {
 	x.Count("too_large_expectations_checked", res.Expect)
 	x.Note(fmt.Sprintf("%s/%s/%s/zero=%v/set=%s/opt=%s/%d", cs.Seed, cs.Class, cs.Limit, cs.Zero, cs.Set, cs.Opt, cs.Shard), map[string]any{"mutants": res.Mutants, "runs": res.Runs, "accepted": res.Accepted, "rejected": res.Rejected, "max_alloc_bytes": res.MaxAlloc, "max_reader_steps": res.MaxSteps, "wall_ms_informative": time.Since(t0).Milliseconds()})
 	x.Outcome(fmt.Sprintf("%s:%s:%s:%s", cs.Class, cs.Limit, cs.Set, cs.Opt))
+	for k := range res.Beyond {
+		x.Outcome("beyond-statement:" + k)
+	}
 	x.Nontrivial(fmt.Sprintf("%s|%s|%s|%v|%s|%s|%d", cs.Seed, cs.Class, cs.Limit, cs.Zero, cs.Set, cs.Opt, cs.Shard))
 	seen := map[string]bool{}
 	for _, v := range res.Violations {
@@ -1572,11 +1661,13 @@ func runC09Limits(cs C09Case, x *kit.Ctx) {
 	// the pragma of a CARv2 is itself read as a header (10 bytes); the binding header is the larger
 	var maxSect uint64
 	bigName := ""
-	for _, s := range pl.Sections {
+	bigIdx := 0 // position of the first largest section
+	for i, s := range pl.Sections {
 		if l := uint64(len(s.Cid) + len(s.Data)); l > maxSect {
-			maxSect = l
+			maxSect, bigIdx = l, i
 		}
 	}
+	tl := c09Sentinels()
 	for _, q := range []string{"a", "L128", "L16384", "L5000", "s", "b", "i"} {
 		for _, s := range pl.Sections {
 			if bytes.Equal(s.Cid, kit.B(q).Raw) && uint64(len(s.Cid)+len(s.Data)) == maxSect && bigName == "" {
@@ -1613,22 +1704,40 @@ func runC09Limits(cs C09Case, x *kit.Ctx) {
 			o2 := drv.Opts{MaxHeader: hdrBody - 1, MaxSect: o.MaxSect}
 			env2 := &c09Env{dir: x.Dir}
 			err2 := e.run(in, o2, env2)
-			if err2 == nil || !strings.Contains(err2.Error(), c09HdrTooLarge) {
-				x.Fail("c09:limit-header-not-enforced:"+e.name, "%s with MaxAllowedHeaderSize %d on a %d-byte header returned %v, want the header-too-large error", e.name, hdrBody-1, hdrBody, err2)
+			switch {
+			case c09Is(err2, tl.hdr):
+			case c09Is(err2, tl.sect):
+				// the statement says "the too-large error", not which of go-car's two
+				x.Outcome("beyond-statement:too-large-kind:header-reported-as-section:" + e.name)
+			default:
+				x.Fail("c09:limit-header-not-enforced:"+e.name, "%s with MaxAllowedHeaderSize %d on a %d-byte header returned %v, want the header-too-large error (%v)", e.name, hdrBody-1, hdrBody, err2, tl.hdr)
 			}
 			if oe, opened := env2.errs["open"]; e.hdr == "store" && opened && oe == nil {
-				// opened without touching the inner header: the listing and the roots both read it
-				for _, k := range []string{"Keys", "Roots"} {
-					if !errHas(env2.errs[k], c09HdrTooLarge) {
-						x.Fail("c09:limit-header-not-enforced:"+e.name+":"+k, "%s/%s with MaxAllowedHeaderSize %d on a %d-byte header returned %v, want the header-too-large error", e.name, k, hdrBody-1, hdrBody, env2.errs[k])
-					}
+				// opened without touching the inner header. Roots returns the header's content, so it
+				// buffers it and must refuse it; a listing can skip the header by its length prefix
+				// without buffering it, which the statement allows (recorded, not a violation)
+				if !c09Is(env2.errs["Roots"], tl.hdr) && !c09Is(env2.errs["Roots"], tl.sect) {
+					x.Fail("c09:limit-header-not-enforced:"+e.name+":Roots", "%s/Roots with MaxAllowedHeaderSize %d on a %d-byte header returned %v, want the header-too-large error (%v)", e.name, hdrBody-1, hdrBody, env2.errs["Roots"], tl.hdr)
+				}
+				if ke, tried := env2.errs["Keys"]; tried && !c09Is(ke, tl.hdr) {
+					x.Outcome("beyond-statement:listing-without-header-limit:" + e.name)
 				}
 			}
 			if e.buf == "both" && maxSect > 1 {
 				o3 := drv.Opts{MaxHeader: hdrBody, MaxSect: maxSect - 1}
 				err3 := e.run(in, o3, &c09Env{dir: x.Dir})
-				if err3 == nil || !strings.Contains(err3.Error(), c09SectTooLarge) {
-					x.Fail("c09:limit-section-not-enforced:"+e.name, "%s with MaxAllowedSectionSize %d on a %d-byte section returned %v, want the section-too-large error", e.name, maxSect-1, maxSect, err3)
+				// the first section over the limit is the first largest one; in mode "alternate" the
+				// sections at odd positions are skipped, not buffered
+				noBuf := e.sectNoBuf == "all" || (e.sectNoBuf == "some" && bigIdx%2 == 1)
+				switch {
+				case c09Is(err3, tl.sect):
+				case c09Is(err3, tl.hdr):
+					x.Outcome("beyond-statement:too-large-kind:section-reported-as-header:" + e.name)
+				case noBuf:
+					// an entry point that does not buffer the section need not apply the section limit
+					x.Outcome("beyond-statement:section-limit-without-buffering:" + e.name)
+				default:
+					x.Fail("c09:limit-section-not-enforced:"+e.name, "%s with MaxAllowedSectionSize %d on a %d-byte section returned %v, want the section-too-large error (%v)", e.name, maxSect-1, maxSect, err3, tl.sect)
 				}
 			}
 			// the query path of the block store (FindCid -> ReadNode): Get of the largest block
@@ -1642,12 +1751,15 @@ func runC09Limits(cs C09Case, x *kit.Ctx) {
 					env4.hook = func(ra drv.RA) { data, gerr = ra.Get(big.Cid) }
 					oerr := e.run(in, o4, env4)
 					switch {
+					case !env4.hooked && d == 1 && c09Is(oerr, tl.sect):
+						// refused already when opening (an index generation that honours the section limit)
+						x.Outcome("beyond-statement:over-limit-section-refused-at-open:" + e.name)
 					case !env4.hooked:
 						x.Fail("c09:limit-store-open:"+e.name, "%s with limits %d / %d on the valid seed %s did not open: %v", e.name, o4.MaxHeader, o4.MaxSect, seed.name, oerr)
 					case d == 0 && (gerr != nil || !bytes.Equal(data, big.Data)):
 						x.Fail("c09:limit-exact-rejected:"+e.name+":Get", "%s: Get of a %d-byte section with MaxAllowedSectionSize %d returned %d bytes, error %v", e.name, maxSect, maxSect, len(data), gerr)
-					case d == 1 && !errHas(gerr, c09SectTooLarge):
-						x.Fail("c09:limit-section-not-enforced:"+e.name+":Get", "%s: Get of a %d-byte section with MaxAllowedSectionSize %d returned %v, want the section-too-large error", e.name, maxSect, maxSect-1, gerr)
+					case d == 1 && !c09Is(gerr, tl.sect):
+						x.Fail("c09:limit-section-not-enforced:"+e.name+":Get", "%s: Get of a %d-byte section with MaxAllowedSectionSize %d returned %v, want the section-too-large error (%v)", e.name, maxSect, maxSect-1, gerr, tl.sect)
 					}
 				}
 			}
@@ -1659,7 +1771,8 @@ func runC09Limits(cs C09Case, x *kit.Ctx) {
 }
 
 func isTooLarge(err error) bool {
-	return err != nil && (strings.Contains(err.Error(), "length of read beyond allowable maximum") || strings.Contains(err.Error(), c09RootTooLarge))
+	tl := c09Sentinels()
+	return c09Is(err, tl.hdr) || c09Is(err, tl.sect) || c09IsRoot(err)
 }
 
 func genC09(tier string, emit0 func(any)) {
@@ -1777,7 +1890,7 @@ func init() {
 		Decode: kit.DecodeAs[C09Case],
 		Rule: "deviation-bounded mutation of valid seeds (CARv1/CARv2/padded/index-less archives with 1-byte length prefixes; a 128-byte, a 5000-byte and a 16384-byte section (2/3-byte prefixes, over the small limits and the 4 KiB bufio size); a 100-root header over 4 KiB; detached indexes of both codecs, synthetic and real; the InsertionIndex form): 0 deviations (the seed must be accepted); EVERY position x byte alphabet {00,01,7f,80,ff,+1,-1} and EVERY truncation (1 deviation; for the three large seeds only the structural positions + every 509th); thorough: all pairs inside the structural regions (2 deviations); the product of boundary values of every numeric field (CARv2 header offsets/sizes; header and section-0 length varints at 0,1,2,127/128,1023-1025,2047-2049,4095-4097,16383/4,8 MiB+-1,32 MiB+-1,2^31,2^32,2^63-1,2^63,2^64-1, each also non-minimal, 10/11-byte and unterminated, and for CARv2 both with and without DataSize/IndexOffset following the new width; index count/code/width/length fields); class cbor: every CBOR head of the header re-encoded (all argument widths, count+-1, 2^22, 2^32-1, 2^63-1, 2^63, 2^64-1, indefinite, every other major type), nesting 1/100/4000/100000 deep, header cut at every item, root CID and section-0 CID with non-minimal / huge / zero varints, all with the enclosing length prefixes and the CARv2 header re-computed " +
 			"x limits {header 4096/section 2048, 2048/4096, defaults} x ZeroLengthSectionAsEOF x option variants {StoreIdentityCIDs+UseWholeCIDs(+root ErrorOnEmptyRoots), TrustedCAR+MaxIndexCidSize 36, index codec sorted} (reduced matrix: small limits only) x every parsing entry point: core set (26) and extended set (source capability kinds ReaderAt-only / Read+Seek-only / bufio ByteReader / go-car's offsetReadSeeker / *os.File / pipe / mmap; resume of blockstore.OpenReadWrite and storage.OpenReadableWritable in both formats; caller-supplied mutant index; InsertionIndex.Unmarshal; index ForEach and lookups with digests matching mutated widths/codes; util.ReadCid at every offset), objects used on after their first error and closed; each run in a child process with an address-space limit; " +
-			"oracle: no panic, no fatal error (child death is attributed to the announced input), reads/seeks within 64*(len+64), allocation per API call <= max(header max, section max) (section max only when only a section length was planted) + proportional part + 1 MiB and per entry point <= header max + section max + ..., a planted length over the limit is answered with the matching too-large error (header vs section string) and one within it is not, the valid seed is accepted at limits exactly its header/largest section and refused with the too-large error one below (incl. blockstore Get and the root module's global); states = mutants, executions = (mutant, entry point) runs",
+			"oracle: no panic, no fatal error (child death is attributed to the announced input), reads/seeks within 64*(len+64), allocation per API call <= max(header max, section max) (section max only when only a section length was planted) + proportional part + 1 MiB and per entry point <= header max + section max + ..., a planted length over the limit is answered with the too-large error of the build under test (identified by probing it, errors.Is or quoted; no error text is pinned; header-vs-section kind, a listing that skips the header unbuffered, and entry points that pass over sections without buffering them - SkipNext, Inspect, odd steps of alternate - are recorded as beyond-statement outcomes) and one within it is not, the valid seed is accepted at limits exactly its header/largest section and refused with the too-large error one below by every entry point that buffers it (incl. blockstore Get - or already the open - and the root module's global); states = mutants, executions = (mutant, entry point) runs",
 		Bound: func(tier string) map[string]any {
 			dev := 1
 			if tier == "thorough" {
@@ -1787,6 +1900,8 @@ func init() {
 		},
 		Assumptions: []string{"coverage statement over the deviation-bounded neighbourhood of the seeds and the field-boundary / CBOR-head products, not over all byte strings", "allocation is measured with runtime/metrics /gc/heap/allocs:bytes around each call in a 2-thread child", "a 30 s watchdog per call only guards the harness; a hang is reported as such and re-executed 5 times before it is believed",
 			"reduced matrices (stated, not sampled): extended entry points x {small limits, ZeroEOF off} in the quick tier; option variants x small limits only (3 seeds in the quick tier); large seeds: structural positions only", "storage.Get/GetStream read through a section reader bounded by the file and are not required to report the section-too-large error", "length prefixes >= 2^63 are answered by go-varint with its own overflow error; the too-large error is demanded below 2^63 only",
-			"file-, pipe- and mmap-backed entry points are not step-counted (watchdog only)"},
+			"file-, pipe- and mmap-backed entry points are not step-counted (watchdog only)",
+			"the too-large errors are taken from the build under test (a 100-byte length prefix under a limit of 1 through verifbridge.ReadHeaderV1 / CarV1Reader.Next / root util.LdRead; root module: compared with numbers masked); the statement obliges only entry points that BUFFER a header/section: Roots (returns the header) is obliged, AllKeysChan, SkipNext and Inspect are not (beyond-statement outcomes)",
+			"an out-of-memory death of the child is labelled by the mutant's region (c09DeathRegion), as the in-process allocation signatures are"},
 	})
 }
